@@ -2086,7 +2086,7 @@ fn main() {
         }
     }
     // 2. random longer chains under random settings
-    let n_random = env.budget(40000, 600000);
+    let n_random = env.budget(40000, 6_000_000);
     let mut left = n_random;
     while left > 0 {
         let take = left.min(100_000);
